@@ -39,6 +39,8 @@ pub struct Tx {
     pub method: u16,
     pub req_algs: (bool, bool),
     pub req_fp: bool,
+    /// remote credentials in force when the request was sent
+    pub remote_at_send: Option<Creds>,
     /// cancelled, already gone from the agent's table (the id was re-used), but its
     /// TransactionCancelled report has not been seen yet
     pub report_pending: bool,
@@ -95,6 +97,8 @@ pub struct Model {
     /// set by the driver before `on_poll` when a `TransactionCancelled(id)` is ambiguous (see there):
     /// whether the live transaction with that id is gone from the agent
     pub hint_live_gone: Option<bool>,
+    /// instant of the most recent `poll`
+    pub last_poll: Option<u64>,
 }
 
 fn v(p: &str, clause: &str, site: &str, m: String) -> Violation {
@@ -120,7 +124,7 @@ pub fn configured_schedule(tcp: bool, rto_ms: u64, n: u32, last_ms: u64) -> (Vec
 
 impl Model {
     pub fn new(tcp: bool, local: SocketAddr) -> Self {
-        Self { tcp, local, txs: vec![], validated: BTreeSet::new(), remote: None, last_wait: None, dropped_since_wait: false, check_prop: String::new(), tolerated: vec![], instants: vec![], hint_live_gone: None }
+        Self { tcp, local, txs: vec![], validated: BTreeSet::new(), remote: None, last_wait: None, dropped_since_wait: false, check_prop: String::new(), tolerated: vec![], instants: vec![], hint_live_gone: None, last_poll: None }
     }
     pub fn live_idx(&self, tid: u128) -> Option<usize> {
         self.txs.iter().position(|t| t.tid == tid && t.status == Status::Live)
@@ -179,9 +183,18 @@ impl Model {
         }
         None
     }
+    /// Completed as far as the application's clock is concerned, report not yet seen: cancelled by
+    /// the application, or past its whole schedule as of the latest poll (an agent may retire every
+    /// expired request in one sweep and hand out the reports one per call).  In that window no
+    /// property says whether the transaction still counts as outstanding: queries, the mutable
+    /// handle, a response and a re-use of the id may all go either way.
+    pub fn in_limbo(&self, i: usize) -> bool {
+        let tx = &self.txs[i];
+        tx.status == Status::Live && (tx.rc || (!tx.sc && tx.k >= tx.intervals_ms.len() && self.last_poll.map_or(false, |p| tx.next_instant() <= p)))
+    }
     /// A `TransactionCancelled(tid)` could belong to either of two transactions with this id.
     pub fn ambiguous_cancel(&self, tid: u128) -> bool {
-        self.txs.iter().any(|t| t.tid == tid && t.report_pending) && self.live_idx(tid).map_or(false, |i| self.txs[i].sc && !self.txs[i].rc)
+        self.txs.iter().any(|t| t.tid == tid && t.report_pending && t.status == Status::Cancelled) && self.live_idx(tid).map_or(false, |i| self.txs[i].sc && !self.txs[i].rc)
     }
     fn invalidate_wait(&mut self) {
         self.last_wait = None;
@@ -191,12 +204,12 @@ impl Model {
     // -------------------------------------------------------------------------------------------
     pub fn on_send_request(&mut self, tid: u128, dest: SocketAddr, bytes: &[u8], signed: bool, now: u64, reply: &Reply) -> Result<(), Violation> {
         if let Some(i) = self.live_idx(tid) {
-            if self.txs[i].rc && matches!(reply, Reply::Transmit { .. }) {
+            if self.in_limbo(i) && matches!(reply, Reply::Transmit { .. }) {
                 // the transaction was cancelled and only its report is still owed: whether it still
                 // counts as outstanding in that window is not stated by any property.  An agent that
                 // accepts the id again has, for the model, completed the old transaction (its
                 // TransactionCancelled report may still come).
-                self.txs[i].status = Status::Cancelled;
+                self.txs[i].status = if self.txs[i].rc { Status::Cancelled } else { Status::TimedOut };
                 self.txs[i].completed_at = Some(now);
                 self.txs[i].report_pending = true;
                 // fall through: the send is treated as the send of a fresh request
@@ -251,6 +264,7 @@ impl Model {
                 _ => (false, false),
             },
             req_fp: matches!(refcodec::decode(bytes), Verdict::Accept(view) if view.all.last().map(|a| a.ty) == Some(refcodec::FP)),
+            remote_at_send: self.remote.clone(),
             report_pending: false,
         });
         let idx = self.txs.len() - 1;
@@ -277,6 +291,7 @@ impl Model {
 
     // -------------------------------------------------------------------------------------------
     pub fn on_poll(&mut self, now: u64, reply: &Reply) -> Result<PollOutcome, Violation> {
+        self.last_poll = Some(now);
         // self-consistency with the previous WaitUntil (model-free)
         if let Some((p, t)) = self.last_wait {
             if self.live_count() > 0 {
@@ -380,6 +395,17 @@ impl Model {
                 Ok(PollOutcome::Retransmit(tid))
             }
             Reply::TimedOut(tid) => {
+                if let Some(j) = self.txs.iter().position(|t| t.tid == *tid && t.report_pending && t.status == Status::TimedOut) {
+                    // the owed report of a transaction whose id was re-used after it had expired —
+                    // unless the live one with that id has itself run out
+                    let live_expired = self.live_idx(*tid).map_or(false, |i| { let t = &self.txs[i]; t.k >= t.intervals_ms.len() && t.next_instant() <= now });
+                    if !live_expired {
+                        self.txs[j].report_pending = false;
+                        self.note_instant(now, None);
+                        self.invalidate_wait();
+                        return Ok(PollOutcome::TimedOut(*tid));
+                    }
+                }
                 let Some(i) = self.live_idx(*tid) else {
                     return Err(v("C05", "completion_only_for_outstanding", "poll", format!("poll reported a time-out for {tid:#x} which is not outstanding")));
                 };
@@ -405,7 +431,7 @@ impl Model {
                 // belongs to the live transaction if that one was cancelled too (the owed one may then
                 // still come, or never), to the owed one otherwise; when the live one had only its
                 // retransmissions cancelled the driver asks the agent which of the two is gone
-                if let Some(j) = self.txs.iter().position(|t| t.tid == *tid && t.report_pending) {
+                if let Some(j) = self.txs.iter().position(|t| t.tid == *tid && t.report_pending && t.status == Status::Cancelled) {
                     let live = self.live_idx(*tid);
                     let book_on_live = match live {
                         Some(i) if self.txs[i].rc => true,
@@ -499,14 +525,19 @@ impl Model {
             }));
             // ... and nothing hidden behind its first integrity attribute
             let no_hidden = resp_view.as_ref().map_or(false, |v| v.all.iter().enumerate().all(|(i, a)| !(a.ty == refcodec::MI || a.ty == refcodec::MI256) || v.exposed.contains(&i)));
-            let canonical = from == tx.dest && refcodec::method_of(resp_type) == tx.method && resp_fp == tx.req_fp && plain && no_hidden && match resp_algs {
+            // ... a request with a single integrity algorithm (to one carrying both, RFC 8489 has the
+            // server answer with one: which shapes a client then accepts is its own policy), answered
+            // under the remote credentials that were already in force when it was sent
+            let single = tx.req_algs != (true, true);
+            let same_creds = !tx.signed || tx.remote_at_send == self.remote;
+            let canonical = from == tx.dest && refcodec::method_of(resp_type) == tx.method && resp_fp == tx.req_fp && plain && no_hidden && single && same_creds && match resp_algs {
                 Some(a) => a == tx.req_algs,
                 None => false,
             };
             if !canonical {
                 st.inc("probe.non_canonical_response");
             }
-            let exp = if tx.rc {
+            let exp = if self.in_limbo(i) {
                 st.inc("probe.response_after_cancel_before_report");
                 Exp::Either
             } else if !tx.signed {
@@ -612,7 +643,7 @@ impl Model {
         Ok(())
     }
     fn check_handle(&self, tid: u128, live: bool, reply: &Reply) -> Result<(), Violation> {
-        if live && matches!(reply, Reply::Handle(None)) && self.live_idx(tid).map_or(false, |i| self.txs[i].rc) {
+        if live && matches!(reply, Reply::Handle(None)) && self.live_idx(tid).map_or(false, |i| self.in_limbo(i)) {
             return Ok(());
         }
         match reply {
@@ -632,7 +663,7 @@ impl Model {
         let live = self.live_idx(tid);
         // cancelled, report still owed: outstanding or not is the implementation's choice
         if let (Some(i), Reply::Tx(None)) = (live, reply) {
-            if self.txs[i].rc {
+            if self.in_limbo(i) {
                 return Ok(());
             }
         }
